@@ -9,7 +9,11 @@
  *   at(p) = k, begin_of_line(p) = start of that line, end_of_line(p) = end of its content (in front of the line ending, or n),
  *   line_at(p) = exactly these bytes; every returned pointer lies inside [begin, end] of the data.
  */
+#ifdef C19_AFTER
+#define VF_ALPHABET "aab\n\n"
+#else
 #define VF_ALPHABET "ab\n\r\n\r"
+#endif
 #define VF_STRING_SELF_T S_class_std____cxx11__basic_string
 #include "verif.h"
 
@@ -83,7 +87,7 @@ static void check1(const u64 *o) {
 }
 
 static void harness(void) {
-  static u64 o[18];
+  static u64 o[22];
   n = IN(0, C19_N);
   buf = (u8 *)exact_alloc(n);
   for (u64 i = 0; i < C19_N; ++i) { u8 v = IN_BYTE(); if (i < n) buf[i] = v; }
@@ -95,6 +99,20 @@ static void harness(void) {
 #if C19_DEFAULT_COUNTERS
   ASSUME(ib == 0 && il == 1 && ic == 1);
 #endif
+#ifdef C19_AFTER
+  /* the position is where a real run (limit_bytes window, predicate, rewinding choice, must<>) started at offset j stopped */
+  C19_W(buf, n, j, ib, il, ic, o);
+  CHECK(o[10] <= n, "the run stops inside the data");
+  k = o[10] <= n ? o[10] : n;
+  split(k, &sb, &se);
+  check1(o);
+  OBS(o[0]); OBS(o[1]); OBS(o[2]); OBS(o[3]); OBS(o[4]); OBS(o[5]); OBS(o[6]); OBS(o[7]); OBS(o[8]); OBS(o[9]); OBS(o[10]);
+  REACH(o[9] == 2 && se > k + 1 && sb < k, "run ended by a global failure inside the byte window, the line continues beyond the window");
+  REACH(o[9] == 1 && k == j + 2, "run succeeded through the window");
+  REACH(o[9] == 2 && k == j + 2 && k < n, "window exhausted: the limiter itself raises");
+  REACH(o[9] == 0, "run failed locally");
+  REACH(o[9] == 2 && sb > 0 && ic != 1, "global failure on a later line, non-default initial column");
+#else
   split(k, &sb, &se);
   /* D11: at() ignores a non-zero initial byte; begin_of_line() subtracts column - 1, which reaches in front of the data when the
    * position is on the first line of an input constructed with an initial column other than 1 */
@@ -136,4 +154,5 @@ static void harness(void) {
   REACH(se + 2 <= n && k < se && eol_len(se) == 2, "the line ends with CR LF");
 #endif
 #endif
+#endif /* C19_AFTER */
 }
